@@ -99,6 +99,7 @@ fn d_zero_width_body(variable: bool, child: u8) {
 }
 
 //@ harness: d_reluctant_repeat_eol_body
+//@ rss: 6
 //@ props: C06
 //@ tier: quick
 //@ cost: 60
@@ -107,6 +108,7 @@ fn d_zero_width_body(variable: bool, child: u8) {
 std_stubs! { #[kani::unwind(14)] pub(crate) fn d_reluctant_repeat_eol_body() { d_zero_width_body(true, 0) } }
 
 //@ harness: d_reluctant_repeat_bol_body
+//@ rss: 6
 //@ props: C06
 //@ tier: quick
 //@ cost: 60
